@@ -23,6 +23,17 @@ distance being used as an upper bound for DTW.
 @return Euclidean distance
 */
 seq_t euclidean_distance(seq_t *s1, idx_t l1, seq_t *s2, idx_t l2) {
+    return sqrt(euclidean_distance_sq(s1, l1, s2, l2));
+}
+
+/*!
+Sum of squared differences: the Euclidean distance before taking the square root.
+This is the value that the DTW recurrence accumulates along the Euclidean path, thus
+the upper bound to use for pruning (sqrt followed by a square can round below it).
+
+@see euclidean_distance
+*/
+seq_t euclidean_distance_sq(seq_t *s1, idx_t l1, seq_t *s2, idx_t l2) {
     idx_t n = MIN(l1, l2);
     seq_t ub = 0;
     for (idx_t i=0; i<n; i++) {
@@ -39,7 +50,6 @@ seq_t euclidean_distance(seq_t *s1, idx_t l1, seq_t *s2, idx_t l2) {
             ub += SEDIST(s1[n-1], s2[i]);
         }
     }
-    ub = sqrt(ub);
     return ub;
 }
 
@@ -93,6 +103,15 @@ assumed to be c-contiguous with as 1st dimension the sequence and the
 @return Euclidean distance
 */
 seq_t euclidean_distance_ndim(seq_t *s1, idx_t l1, seq_t *s2, idx_t l2, int ndim) {
+    return sqrt(euclidean_distance_ndim_sq(s1, l1, s2, l2, ndim));
+}
+
+/*!
+Sum of squared differences for n-dimensional sequences.
+
+@see euclidean_distance_sq
+*/
+seq_t euclidean_distance_ndim_sq(seq_t *s1, idx_t l1, seq_t *s2, idx_t l2, int ndim) {
     idx_t n = MIN(l1, l2);
     idx_t idx;
     seq_t d;
@@ -126,7 +145,6 @@ seq_t euclidean_distance_ndim(seq_t *s1, idx_t l1, seq_t *s2, idx_t l2, int ndim
             ub += d;
         }
     }
-    ub = sqrt(ub);
     return ub;
 }
 
